@@ -317,3 +317,41 @@ def gen_and_eval(pid, gocmd, header, footer, goargs=None, timeout=1200, env=None
     if rc2 != 0:
         raise Broken("cases.v for %s does not compile:\n%s\n%s" % (pid, out[-2000:], err[-3000:]))
     return out, defs, (0, so, se)
+
+
+# ------------------------------------------------- translator-generated obligations ----
+
+def gen_consts(pid):
+    """Run translator T2 on the current /repo -> work/<pid>/gen/Consts.v, compile it."""
+    binp = go_build("consts")
+    gd = os.path.join(WORK, pid, "gen")
+    shutil.rmtree(gd, ignore_errors=True)
+    os.makedirs(gd)
+    out = os.path.join(gd, "Consts.v")
+    rc, so, se, dt = run([binp, out, REPO], cwd=gd, env=GOENV, timeout=300)
+    if rc != 0:
+        raise Broken("consts translator failed: %s %s" % (so[-1000:], se[-2000:]))
+    rc, so, se, dt = coqc_file(out, timeout=300, extra=["-Q", gd, "MVgen"])
+    if rc != 0:
+        raise Broken("generated Consts.v does not compile: %s %s" % (so[-1000:], se[-2000:]))
+    return gd
+
+
+def check_gen_obligations(pid, gd, imports, obligations, timeout=300):
+    """obligations: list of (name, statement, proof_script). Each is compiled on its own against the
+    regenerated definitions; returns list of (name, ok, stderr_tail)."""
+    from concurrent.futures import ThreadPoolExecutor
+    od = os.path.join(WORK, pid, "obl")
+    shutil.rmtree(od, ignore_errors=True)
+    os.makedirs(od)
+
+    def one(ob):
+        name, stmt, proof = ob
+        p = os.path.join(od, name + ".v")
+        with open(p, "w") as f:
+            f.write(imports + "\nTheorem %s : %s.\nProof. %s Qed.\nPrint Assumptions %s.\n" % (name, stmt, proof, name))
+        rc, so, se, dt = coqc_file(p, timeout=timeout, extra=["-Q", gd, "MVgen"])
+        ok = rc == 0 and "Closed under the global context" in so
+        return (name, ok, (se or so)[-600:])
+    with ThreadPoolExecutor(8) as ex:
+        return list(ex.map(one, obligations))
